@@ -99,6 +99,7 @@ func runStop(t *testing.T, rc *core.RunCtx) {
 		site := yieldSites[tp.Intn(len(yieldSites))]
 		w.armYield(site, 1+tp.Intn(6), time.Duration(1+tp.Intn(5000))*time.Millisecond)
 		parkPred = func() bool { return w.parkedAt() != "" }
+		w.parkedReturn = true
 	}
 
 	// Phase 1: let it run for a while (possibly not even connected yet).
